@@ -10,9 +10,29 @@ if os.environ.get("VERIF_SERIAL"):
         def __enter__(self): return self
         def __exit__(self, *a): return False
         def map(self, f, xs, chunksize=None): return [f(x) for x in xs]
+        def imap(self, f, xs, chunksize=None): return (f(x) for x in xs)
+        imap_unordered = imap
+        def starmap(self, f, xs, chunksize=None): return [f(*x) for x in xs]
+        def apply(self, f, args=(), kwds=None): return f(*args, **(kwds or {}))
+        def close(self): pass
+        def join(self): pass
+        def terminate(self): pass
     class _Ctx:
         Pool = staticmethod(lambda *a, **k: _SerialPool())
     _mp.get_context = lambda *a, **k: _Ctx()
+    import concurrent.futures as _cf
+    class _SerialExecutor:
+        def __init__(self, *a, **k): pass
+        def __enter__(self): return self
+        def __exit__(self, *a): return False
+        def map(self, f, *xs, **k): return [f(*x) for x in zip(*xs)]
+        def submit(self, f, *a, **k):
+            fut = _cf.Future()
+            try: fut.set_result(f(*a, **k))
+            except BaseException as e: fut.set_exception(e)
+            return fut
+        def shutdown(self, *a, **k): pass
+    _cf.ProcessPoolExecutor = _SerialExecutor
 
 def main():
     ap = argparse.ArgumentParser()
